@@ -207,3 +207,38 @@ VH_ENTRY vh_cmap4_step() {
   free(st);
   VH_END();
 }
+
+// ---- C13 (which subtable answers): TtfUtil::FindCmapSubtable on arbitrary cmap bytes with NREC encoding records.  Soundness: a subtable that is
+// returned is the one of the FIRST record with the requested platform/encoding and starts inside the table.  Completeness: if that record's
+// subtable is format 4 or 12 and lies inside the table (offset + announced length <= table length; for a record that is not the last one the
+// announced length also has to stay below the next record's offset, as the function requires) it IS returned - in particular a subtable that
+// ends exactly at the end of the table.
+#ifndef NREC
+#define NREC 1
+#endif
+#ifndef TLEN
+#define TLEN 28
+#endif
+VH_ENTRY vh_findsubtable() {
+  uint8_t *t = vh_bytes(TLEN);
+  t[2] = 0; t[3] = NREC;
+  int plat = nondet_u8() & 3; int enc = nondet_bool() ? -1 : (int)(nondet_u8() & 15);
+  const void *r = TtfUtil::FindCmapSubtable(t, plat, enc, TLEN);
+  int first = -1;
+  for (int i = NREC - 1; i >= 0; --i) { const uint8_t *rec = t + 4 + 8 * i; if ((int)rd16(rec) == plat && (enc == -1 || (int)rd16(rec + 2) == enc)) first = i; }
+  if (first < 0) { ASSERT(r == 0, "no record with that platform/encoding: nothing found"); }
+  else {
+    const uint32_t off = rd32(t + 4 + 8 * first + 4);
+    if (r) ASSERT(r == t + off && off <= TLEN - 2, "found: the subtable of the first matching record, starting inside the table");
+    if (off <= TLEN - 8) {
+      const unsigned fmt = rd16(t + off);
+      const bool last = first + 1 == NREC;
+      const uint32_t nextoff = last ? 0 : rd32(t + 4 + 8 * (first + 1) + 4);
+      if (fmt == 4) { const uint32_t sl = rd16(t + off + 2); if (off + sl <= TLEN && (last || sl <= nextoff)) ASSERT(r == t + off, "format 4 subtable inside the table (also flush with its end) is found"); }
+      else if (fmt == 12) { const uint32_t sl = rd32(t + off + 2); if (sl <= TLEN && off + sl <= TLEN && (last || sl <= nextoff)) ASSERT(r == t + off, "format 12 subtable inside the table is found"); }
+      else ASSERT(r == t + off, "other formats are returned as they are (their checks follow later)");
+    }
+  }
+  free(t);
+  VH_END();
+}
